@@ -469,11 +469,11 @@ func (x *Exec) ghostSet(s *State, env *CEnv, a AfterClause) {
 		kk := gd.Keys[i]
 		switch {
 		case strings.HasPrefix(kk, "*"):
-			sub.bound[vn] = &Val{T: x.resolveType(gd.Pkg, kk), K: KPtr, S: Tm{bn, ks}}
+			sub.bindQ(vn, &Val{T: x.resolveType(gd.Pkg, kk), K: KPtr, S: Tm{bn, ks}})
 		case kk == "ref" || kk == "addr":
-			sub.bound[vn] = &Val{T: types.Typ[types.UnsafePointer], K: KPtr, S: Tm{bn, ks}}
+			sub.bindQ(vn, &Val{T: types.Typ[types.UnsafePointer], K: KPtr, S: Tm{bn, ks}})
 		case kk == "int":
-			sub.bound[vn] = &Val{T: types.Typ[types.Int], K: KInt, S: Tm{bn, ks}}
+			sub.bindQ(vn, &Val{T: types.Typ[types.Int], K: KInt, S: Tm{bn, ks}})
 		default:
 			engineErr("ghostset: unsupported key sort %q", kk)
 		}
